@@ -328,6 +328,11 @@ impl Encode for SpyState {
         Ok(())
     }
     fn encoded_len(&self) -> Option<usize> {
+        // `encoded_len` is an optional hint (the trait's default is None): values with an odd blob length give none,
+        // so that code which wrongly RELIES on the hint (e.g. to validate a decode) is exercised too
+        if self.blob.len() % 2 == 1 {
+            return None;
+        }
         Some(4 + 24 + 1 + self.blob.len() + 8)
     }
 }
@@ -390,6 +395,11 @@ impl Encode for SpyShare {
         Ok(())
     }
     fn encoded_len(&self) -> Option<usize> {
+        // `encoded_len` is an optional hint (the trait's default is None): values with an odd blob length give none,
+        // so that code which wrongly RELIES on the hint (e.g. to validate a decode) is exercised too
+        if self.blob.len() % 2 == 1 {
+            return None;
+        }
         Some(3 + 24 + 1 + self.blob.len() + 8)
     }
 }
@@ -451,6 +461,11 @@ impl Encode for SpyMsg {
         Ok(())
     }
     fn encoded_len(&self) -> Option<usize> {
+        // `encoded_len` is an optional hint (the trait's default is None): values with an odd blob length give none,
+        // so that code which wrongly RELIES on the hint (e.g. to validate a decode) is exercised too
+        if self.blob.len() % 2 == 1 {
+            return None;
+        }
         Some(2 + 32 + 1 + self.blob.len() + 8)
     }
 }
